@@ -716,16 +716,35 @@ def r6(ctx, F, rule, sfx):
     delta = (dist - R + sr) / 2
     grow = I.b_cmp('<', RF.const(0), delta)
 
-    def val_for(b_):
-        def val(leaf):
-            if leaf == grow:
-                return b_
-            if leaf == I.b_not(grow):
-                return not b_
-            raise AnalysisIncomplete('sphere extension depends on %r' % (leaf,))
-        return val
     Rn = as_rf(I.get_field(nxt, 'radius', 'f64'))
     Cn = c3(I.get_field(nxt, 'center', 'glam::DVec3'))
+    # the one condition the step tests: must be equivalent to "0 < d" with d = (dist - R + r)/2 (any positive multiple, either polarity)
+    leaves = {}
+    for x in [Rn] + list(Cn):
+        leaves.update(dtab.b_leaves(x))
+    cmpl = [l for l in leaves.values() if l.op == 'cmp' and l.args[0] in ('<', '<=')]
+    polarity = {}
+    for l in cmpl:
+        diff = as_rf(l.args[2]) - as_rf(l.args[1])          # lhs < rhs  <=>  diff > 0
+        q = diff / delta
+        if q.is_const() and q.const_value() != 0:
+            # diff = q*d: (lhs < rhs) <=> d > 0 when q > 0;  (lhs <= rhs) with q < 0 <=> d <= 0
+            if q.const_value() > 0 and l.args[0] == '<':
+                polarity[l.key()] = True
+            elif q.const_value() < 0 and l.args[0] == '<=':
+                polarity[l.key()] = False
+    unknown = [l for l in leaves.values() if l.key() not in polarity]
+    if unknown and all(l.op == 'cmp' for l in unknown) and len(unknown) == 1:
+        l = unknown[0]
+        ctx.bad(rule, 'spheres:step-taken-exactly-when-not-contained%s' % sfx, 'the step is taken when %s' % repr(l)[:120], 'exactly when (dist - R + r)/2 > 0, i.e. when the sphere is not yet contained', ws, key_extra='cond')
+        polarity[l.key()] = True          # go on with the two arms as they are
+
+    def val_for(b_):
+        def val(leaf):
+            if leaf.key() in polarity:
+                return b_ == polarity[leaf.key()]
+            raise AnalysisIncomplete('sphere extension depends on %r' % (leaf,))
+        return val
     R1 = as_rf(dtab.evaluate(Rn, val_for(True)))
     C1 = [as_rf(dtab.evaluate(x, val_for(True))) for x in Cn]
     R0 = as_rf(dtab.evaluate(Rn, val_for(False)))
